@@ -333,9 +333,9 @@ def run(ctx, chk):
                        'host-less paths that would begin with "//"; (b) a host never coexists with the absolute-path flag: when '
                        'authority and path come from different sources the flag is reconciled with the host; (c) outside the parser '
                        'both ends of a text range are written together on every path; (d) list builders keep the tail as the last, '
-                       'terminated node (path copy, segment append, guard insertion). NOT decided: general re-read equality (it '
-                       'depends on what dot-segment removal exposes at the head of a path) and the tail after list surgery in merge '
-                       '/ dot removal.')
+                       'terminated node (path copy, segment append, guard insertion). a node established to be the last one is freed only with '
+                       'a store to pathTail before a successful return (dot removal). NOT decided: general re-read equality (it '
+                       'depends on what dot-segment removal exposes at the head of a path).')
     chk.rule('ambiguity-guard', 'every success path of a producer whose result may be host-less and whose path was rebuilt passes '
              'through the ambiguity guard after the last path operation', floor=8)
     chk.rule('guard-condition', 'the guard prepends "." exactly when the URI has no host and its path would begin with "//"', floor=2)
@@ -378,5 +378,7 @@ def run(ctx, chk):
     funcs = set(n for n in funcs if n not in parser or base_name(n) in ('uriFreeUriMembersMm', 'uriResetUri', 'uriIsHostSet'))
     n = rule_pair_write(ctx, chk, funcs)
     chk.analysed['list_building_functions'] = rule_fresh_tail(ctx, chk, funcs)
+    from ..listrules import rule_tail_after_removal
+    chk.analysed['last_node_frees'] = rule_tail_after_removal(ctx, chk, funcs)
     chk.analysed['producer_functions'] = len(funcs)
     chk.analysed['range_writing_functions'] = n
